@@ -5,13 +5,22 @@ use std::io::{self, BufRead, Write};
 
 mod generated;
 mod ops;
+mod consumer;
+mod sweep;
+
+thread_local! {
+    static LAST_LOC: std::cell::RefCell<String> = std::cell::RefCell::new(String::new());
+}
 
 fn main() {
     let stdin = io::stdin();
     let stdout = io::stdout();
     let mut out = stdout.lock();
     // panics are reported in-band
-    std::panic::set_hook(Box::new(|_| {}));
+    std::panic::set_hook(Box::new(|info| {
+        let loc = info.location().map(|l| format!("{}:{}", l.file(), l.line())).unwrap_or_default();
+        LAST_LOC.with(|c| *c.borrow_mut() = loc);
+    }));
     for line in stdin.lock().lines() {
         let line = match line {
             Ok(l) => l,
@@ -33,7 +42,8 @@ fn main() {
                 } else {
                     "?".to_string()
                 };
-                format!("{{\"panic\": {}}}", ops::jstr(&msg))
+                let loc = LAST_LOC.with(|c| c.borrow().clone());
+                format!("{{\"panic\": {}, \"at\": {}}}", ops::jstr(&msg), ops::jstr(&loc))
             }
         };
         writeln!(out, "{}", s).unwrap();
